@@ -20,7 +20,7 @@ ASSUMPTIONS = [
     "seed reproducibility is a two-run relational obligation: draws inside an epoch opened with the same seed are identical, any draw outside such an epoch is independent between the runs",
 ]
 BOUNDS = {
-    "quick": "detector law: every input with <=3 photons on <=2 modes, both detector modes, all four regimes of (efficiency, p_dark), symbolic efficiency and p_dark; sampling methods: 2-3 mode circuits with rational reflectivities, 0-1 herald (0/1 photons), post-selection none/rule/predicate, min_detection 0..2, N = 1 (inputs) / 2 (outputs) draws; a circuit whose only photon sits on a heralded mode; seeds 42, 0, numpy integer, integral float",
+    "quick": "detector law: a Detector object re-used after its settings were changed through the setters (photon_counting alone, all three); every input with <=3 photons on <=2 modes, both detector modes, all four regimes of (efficiency, p_dark), symbolic efficiency and p_dark; sampling methods: 2-3 mode circuits with rational reflectivities, 0-1 herald (0/1 photons), post-selection none/rule/predicate, min_detection 0..2, N = 1 (inputs) / 2 (outputs) draws; a circuit whose only photon sits on a heralded mode; seeds 42, 0, numpy integer, integral float",
     "thorough": "detector law up to 4 photons on 3 modes; N = 2 for sample_N_inputs",
 }
 OUTSIDE = "the RNG libraries; empirical convergence (replaced by equality of laws under A-EXT); N above the bound (covered by i.i.d.-ness of the stub)"
@@ -89,11 +89,24 @@ def _implemented_law(ctx, det, state):
     return law, en.runs
 
 
-def h_detector_law(ctx, state, counting):
+def h_detector_law(ctx, state, counting, reuse=None):
     lw = ctx.lw
     eta = ctx.real("eta", 0, 1)
     d = ctx.real("d", 0, 1)
-    det = lw.emulator.Detector(efficiency=eta, p_dark=d, photon_counting=counting)
+    if reuse is None:
+        det = lw.emulator.Detector(efficiency=eta, p_dark=d, photon_counting=counting)
+    else:
+        # the detector object has already been used with other settings; its response afterwards is
+        # that of its current settings (each setter alone, and all three)
+        if reuse == "counting-only":
+            det = lw.emulator.Detector(efficiency=eta, p_dark=d, photon_counting=not counting)
+        else:
+            det = lw.emulator.Detector()
+        _implemented_law(ctx, det, state)
+        det.photon_counting = counting
+        if reuse == "all":
+            det.efficiency = eta
+            det.p_dark = d
     law, runs = _implemented_law(ctx, det, state)
     # which stages are active is decided by the library's own comparisons (forks):
     eff_active = bool(eta < 1)
@@ -424,6 +437,7 @@ def harnesses(tier):
     if tier != "quick":
         states += [s for k in (2, 3, 4) for s in ref.fock_states(3, k)][::2]
     dl = [dict(state=tuple(s), counting=cnt) for s in states for cnt in (True, False)]
+    dl += [dict(state=tuple(s), counting=cnt, reuse=r) for s in ([2, 1], [1, 1], [3]) for cnt in (True, False) for r in ("counting-only", "all")]
     ni = []
     for which in ("bs", "herald1", "herald0-lossy", "hom-herald", "bunch-herald", "herald-only"):
         for postsel in ("none", "rule", "func"):
